@@ -13,7 +13,7 @@ RULE = (
     "handed to the equivalent incompressible problem is a rigid-body rotation field of the stretched geometry; "
     "non-trivial = forces non-zero (and M>0 for the transformation identity)"
 )
-ASSUMPTIONS = ["finite alphabets for M, alpha, beta; nx<=4, ny<=7, <=2 surfaces", "the incompressible solver is validated separately by C05", "OpenMDAO/NumPy/SciPy trusted"]
+ASSUMPTIONS = ["finite alphabets for M, alpha, beta (0, +5, -5 deg); nx<=4, ny<=7, <=2 surfaces", "the incompressible solver is validated separately by C05", "OpenMDAO/NumPy/SciPy trusted"]
 BOUND = {"quick": "M in {0,0.3,0.84}, nx<=3 (+ one planform with nx=4)", "thorough": "M in {0,0.3,0.6,0.84,0.94}, nx<=4"}
 TOL = 1e-9
 
